@@ -23,7 +23,8 @@
  *   ev <date> hoston|hostoff <host>
  *   ev <date> linkon|linkoff <link>
  *   ev <date> probe                        (sample from actor context)
- *   sample <0|1>                           (1: sample at every on_time_advance)
+ *   sample <0|1|2>                         (1: sample at every on_time_advance, printing only running activities and
+ *                                           loaded resources; 2: print every activity and resource)
  *   energy <0|1|2>                         (1: read energies only at the end, 2: at every sample as well)
  *   horizon <date>                         (controller stays alive until then)
  *   end
@@ -105,7 +106,7 @@ static std::vector<ActRun> runs;
 static std::vector<sg4::Host*> hosts_v;
 static std::vector<sg4::Link*> links_v;
 static std::vector<sg4::Disk*> disks_v;
-static int g_energy = 0;
+static int g_energy = 0, g_sample = 0;
 static bool g_host_energy = false, g_link_energy = false;
 
 static ActRun* find_run(const std::string& id)
@@ -127,7 +128,8 @@ static void emit_sample(const char* where)
     auto* impl   = r.act->get_impl();
     auto* action = impl->model_action_;
     if (action == nullptr) {
-      printf("R %s - %s noaction\n", r.spec.id.c_str(), r.act->get_state_str());
+      if (g_sample >= 2)
+        printf("R %s - %s noaction\n", r.spec.id.c_str(), r.act->get_state_str());
       continue;
     }
     double rem;
@@ -156,6 +158,8 @@ static void emit_sample(const char* where)
   }
   for (auto* h : hosts_v) {
     double load = h->get_cpu()->get_constraint() ? h->get_load() : -1; // the TI model has no LMM constraint
+    if (g_sample < 2 && load <= 0)
+      continue;
     printf("H %s load=%.17g speed=%.17g avail=%.17g pstate=%lu on=%d cores=%d", h->get_cname(), load, h->get_speed(),
            h->get_available_speed(), h->get_pstate(), (int)h->is_on(), h->get_core_count());
     if (g_host_energy && g_energy >= 2)
@@ -163,6 +167,8 @@ static void emit_sample(const char* where)
     printf("\n");
   }
   for (auto* l : links_v) {
+    if (g_sample < 2 && l->get_load() <= 0)
+      continue;
     printf("L %s load=%.17g bw=%.17g lat=%.17g on=%d", l->get_cname(), l->get_load(), l->get_bandwidth(),
            l->get_latency(), (int)l->is_on());
     if (g_link_energy && g_energy >= 2)
@@ -171,6 +177,8 @@ static void emit_sample(const char* where)
   }
   for (auto* d : disks_v) {
     auto* di = d->get_impl();
+    if (g_sample < 2 && di->get_constraint()->get_load() <= 0)
+      continue;
     printf("D %s load=%.17g rload=%.17g wload=%.17g rbw=%.17g wbw=%.17g\n", d->get_cname(),
            di->get_constraint()->get_load(), di->get_read_constraint()->get_load(),
            di->get_write_constraint()->get_load(), d->get_read_bandwidth(), d->get_write_bandwidth());
@@ -368,6 +376,7 @@ static int run_case(const Case& c)
   }
   sg4::Engine e(&argc, argv.data());
   g_energy   = c.energy;
+  g_sample   = c.sample;
   auto* zone = e.get_netzone_root();
 
   std::map<std::string, sg4::Host*> hm;
